@@ -204,7 +204,7 @@ void type_error(char *, int);
 int compatible_types(int, int);
 int compatible_types2(int, int);
 void arrange_call_inherited(char *, parse_node_t *);
-function_number_t define_new_function(char *, int, int, uint64_t, int);
+int define_new_function(char *, int, int, uint64_t, int);
 int define_new_variable(char *, int);
 short store_prog_string(const char *);
 void free_prog_string(int);
